@@ -2,9 +2,10 @@
 (* What `whatshap compare` has to report (property C11).  Everything here is a
    DEFINITION by brute force (set comprehension, minimum over all haplotype
    correspondences / all sequences of correspondences); nothing follows the
-   shape of the implementation, except the two dynamic programs at the end,
-   which MC_Compare proves equal to the brute-force definitions on small
-   blocks and which the trace spec uses beyond brute-force range.
+   shape of the implementation, except the two recurrences at the end of the
+   polyploid section, which MC_Compare proves equal to the brute-force
+   definitions on small blocks and which the trace spec uses beyond
+   brute-force range.
 
    A phasing (one VCF, one sample, one chromosome) is a sequence over the
    sites 1..N of records
@@ -16,12 +17,17 @@
 
    UNITS: every error count below is measured in "haplotype units", i.e. it is
    P x the number printed by whatshap (whatshap divides by the ploidy; for
-   P = 2 one switch error = 2 units).  The driver multiplies by P. *)
+   P = 2 one switch error = 2 units).  The driver multiplies by P.
+
+   STYLE: TLC re-evaluates a LET definition at every use inside an action but
+   evaluates an operator argument once; shared subterms are therefore passed as
+   arguments of small helper operators (names ending in _) instead of LET. *)
 EXTENDS Util, TLC
 
 (* ------------------------------------------------------------------ helpers *)
 RECURSIVE SortedSeqOf(_)
-SortedSeqOf(S) == IF S = {} THEN << >> ELSE LET m == MinSet(S) IN <<m>> \o SortedSeqOf(S \ {m})
+SortedIns_(S, m) == <<m>> \o SortedSeqOf(S \ {m})
+SortedSeqOf(S) == IF S = {} THEN << >> ELSE SortedIns_(S, MinSet(S))
 
 PermsOn(P) == { f \in [1..P -> 1..P] : \A i, j \in 1..P : f[i] = f[j] => i = j }
 Perms2 == PermsOn(2)
@@ -41,10 +47,11 @@ Common(F) == { s \in 1..NSites(F) : \A f \in DOMAIN F : Het(F[f][s].a) }
 Joint(F) == { s \in Common(F) : \A f \in DOMAIN F : F[f][s].b > 0 }
 JointId(F, s) == [f \in DOMAIN F |-> F[f][s].b]
 (* intersection blocks: classes of equal joint phase set id with at least two variants *)
-Blocks(F) == { blk \in { { t \in Joint(F) : JointId(F, t) = JointId(F, s) } : s \in Joint(F) } : Cardinality(blk) >= 2 }
+Blocks_(F, J) == { blk \in { { t \in J : JointId(F, t) = JointId(F, s) } : s \in J } : Cardinality(blk) >= 2 }
+Blocks(F) == Blocks_(F, Joint(F))
 (* the P haplotypes of file f on block blk (sites in genomic order): Haps[k][i] *)
-Haps(F, f, blk, P) == LET q == SortedSeqOf(blk) IN
-                      [k \in 1..P |-> [i \in 1..Len(q) |-> F[f][q[i]].a[k]]]
+Haps_(F, f, q, P) == TLCEval([k \in 1..P |-> TLCEval([i \in 1..Len(q) |-> F[f][q[i]].a[k]])])
+Haps(F, f, blk, P) == Haps_(F, f, SortedSeqOf(blk), P)
 BlockLen(X) == Len(X[1])
 
 PhaseSets(A) == { A[s].b : s \in DOMAIN A } \ {0}
@@ -60,11 +67,11 @@ DiffGenotypes(X, Y) == BlockLen(X) - Cardinality(Matching(X, Y))
 
 (* ------------------------------------------------------------------ diploid switch errors, switch/flip decomposition *)
 SwitchEnc(h) == [i \in 1..(Len(h) - 1) |-> IF h[i] = h[i + 1] THEN 0 ELSE 1]
-SwitchDiff(h, g) == [i \in 1..(Len(h) - 1) |-> IF SwitchEnc(h)[i] # SwitchEnc(g)[i] THEN 1 ELSE 0]
+SwitchDiff(h, g) == TLCEval([i \in 1..(Len(h) - 1) |-> IF (h[i] = h[i + 1]) # (g[i] = g[i + 1]) THEN 1 ELSE 0])
 (* Hamming distance of the switch encodings, minimum over the correspondences *)
 DiploidSwitches(X, Y) == MinSet({ Ones(SwitchDiff(X[pi[1]], Y[1])) : pi \in Perms2 })
-DiploidDiff(X, Y) == LET pi == CHOOSE p \in Perms2 : Ones(SwitchDiff(X[p[1]], Y[1])) = DiploidSwitches(X, Y)
-                     IN SwitchDiff(X[pi[1]], Y[1])
+DiploidDiff_(X, Y, sw) == SwitchDiff(X[(CHOOSE p \in Perms2 : Ones(SwitchDiff(X[p[1]], Y[1])) = sw)[1]], Y[1])
+DiploidDiff(X, Y) == DiploidDiff_(X, Y, DiploidSwitches(X, Y))
 (* maximal runs of consecutive differing switch positions; a run of r = r div 2 flips + r mod 2 switches *)
 Runs(d) == { r \in (DOMAIN d) \X (DOMAIN d) :
                /\ r[1] <= r[2]
@@ -72,8 +79,8 @@ Runs(d) == { r \in (DOMAIN d) \X (DOMAIN d) :
                /\ (r[1] = 1 \/ d[r[1] - 1] = 0)
                /\ (r[2] = Len(d) \/ d[r[2] + 1] = 0) }
 RunLen(r) == r[2] - r[1] + 1
-SFOf(d) == LET R == Runs(d) IN
-           [s |-> SumOver(R, [r \in R |-> RunLen(r) % 2]), f |-> SumOver(R, [r \in R |-> RunLen(r) \div 2])]
+SFOfRuns_(R) == [s |-> SumOver(R, [r \in R |-> RunLen(r) % 2]), f |-> SumOver(R, [r \in R |-> RunLen(r) \div 2])]
+SFOf(d) == SFOfRuns_(Runs(d))
 DiploidSF(X, Y) == SFOf(DiploidDiff(X, Y))
 
 (* ------------------------------------------------------------------ general (polyploid) switch errors *)
@@ -83,87 +90,95 @@ DiploidSF(X, Y) == SFOf(DiploidDiff(X, Y))
 PermSeqs(P, n) == [1..n -> Perms(P)]
 PermDist(p1, p2) == Cardinality({ k \in DOMAIN p1 : p1[k] # p2[k] })
 FlipsAt(X, Y, pi, i) == Cardinality({ k \in DOMAIN pi : X[pi[k]][i] # Y[k][i] })
-SwCost(sig) == LET n == Len(sig) IN SumOver(2..n, [i \in 2..n |-> PermDist(sig[i], sig[i - 1])])
-FlCost(X, Y, sig) == LET n == Len(sig) IN SumOver(1..n, [i \in 1..n |-> FlipsAt(X, Y, sig[i], i)])
+SwCostN_(sig, n) == SumOver(2..n, [i \in 2..n |-> PermDist(sig[i], sig[i - 1])])
+SwCost(sig) == SwCostN_(sig, Len(sig))
+FlCostN_(X, Y, sig, n) == SumOver(1..n, [i \in 1..n |-> FlipsAt(X, Y, sig[i], i)])
+FlCost(X, Y, sig) == FlCostN_(X, Y, sig, Len(sig))
 
-SubHaps(X, q) == [k \in DOMAIN X |-> [i \in 1..Len(q) |-> X[k][q[i]]]]
+SubHaps(X, q) == TLCEval([k \in DOMAIN X |-> TLCEval([i \in 1..Len(q) |-> X[k][q[i]]])])
 (* switch errors: positions with different genotypes are left out, no flips allowed *)
-PolySwitchesBF(X, Y, P) ==
-    LET q == SortedSeqOf(Matching(X, Y))
-        Xm == SubHaps(X, q)
-        Ym == SubHaps(Y, q)
-    IN IF q = << >> THEN 0
-       ELSE MinSet({ SwCost(sig) : sig \in { s \in PermSeqs(P, Len(q)) : FlCost(Xm, Ym, s) = 0 } })
+PolySwitchesBF_(Xm, Ym, P, n) ==
+    IF n = 0 THEN 0
+    ELSE MinSet({ SwCost(sig) : sig \in { s \in PermSeqs(P, n) : FlCost(Xm, Ym, s) = 0 } })
+PolySwitchesBFq_(X, Y, P, q) == PolySwitchesBF_(SubHaps(X, q), SubHaps(Y, q), P, Len(q))
+PolySwitchesBF(X, Y, P) == PolySwitchesBFq_(X, Y, P, SortedSeqOf(Matching(X, Y)))
 (* switch/flip: all positions, unit costs; the optimal decompositions *)
 PolySFCostsBF(X, Y, P) == { <<SwCost(sig), FlCost(X, Y, sig)>> : sig \in PermSeqs(P, BlockLen(X)) }
-PolySFMinBF(X, Y, P) == MinSet({ c[1] + c[2] : c \in PolySFCostsBF(X, Y, P) })
-PolySFFlipsBF(X, Y, P) == LET m == PolySFMinBF(X, Y, P) IN { c[2] : c \in { d \in PolySFCostsBF(X, Y, P) : d[1] + d[2] = m } }
+PolySFMinOf_(C) == MinSet({ c[1] + c[2] : c \in C })
+PolySFMinBF(X, Y, P) == PolySFMinOf_(PolySFCostsBF(X, Y, P))
+PolySFFlipsOf_(C, m) == { c[2] : c \in { d \in C : d[1] + d[2] = m } }
+PolySFFlipsOfC_(C) == PolySFFlipsOf_(C, PolySFMinOf_(C))
+PolySFFlipsBF(X, Y, P) == PolySFFlipsOfC_(PolySFCostsBF(X, Y, P))
 
 (* The same two minima as recurrences over the positions (for blocks beyond brute force). *)
 Inf == 1000000
 RECURSIVE SwCol(_, _, _, _)
+SwStep_(X, Y, P, i, prev) ==
+    TLCEval([pi \in Perms(P) |-> IF FlipsAt(X, Y, pi, i) = 0
+                                 THEN Min2(Inf, MinSet({ prev[pj] + PermDist(pi, pj) : pj \in Perms(P) }))
+                                 ELSE Inf])
 SwCol(X, Y, P, i) ==     \* [pi |-> min switch units of a flip-free sequence for positions 1..i ending in pi]
     IF i = 1 THEN TLCEval([pi \in Perms(P) |-> IF FlipsAt(X, Y, pi, 1) = 0 THEN 0 ELSE Inf])
-    ELSE LET prev == SwCol(X, Y, P, i - 1) IN
-         TLCEval([pi \in Perms(P) |-> IF FlipsAt(X, Y, pi, i) = 0
-                                      THEN Min2(Inf, MinSet({ prev[pj] + PermDist(pi, pj) : pj \in Perms(P) }))
-                                      ELSE Inf])
-PolySwitchesDP(X, Y, P) ==
-    LET q == SortedSeqOf(Matching(X, Y))
-        Xm == SubHaps(X, q)
-        Ym == SubHaps(Y, q)
-    IN IF q = << >> THEN 0
-       ELSE LET last == SwCol(Xm, Ym, P, Len(q)) IN MinSet({ last[pi] : pi \in Perms(P) })
+    ELSE SwStep_(X, Y, P, i, SwCol(X, Y, P, i - 1))
+MinOverPerms_(last, P) == MinSet({ last[pi] : pi \in Perms(P) })
+PolySwitchesDP_(Xm, Ym, P, n) == IF n = 0 THEN 0 ELSE MinOverPerms_(SwCol(Xm, Ym, P, n), P)
+PolySwitchesDPq_(X, Y, P, q) == PolySwitchesDP_(SubHaps(X, q), SubHaps(Y, q), P, Len(q))
+PolySwitchesDP(X, Y, P) == PolySwitchesDPq_(X, Y, P, SortedSeqOf(Matching(X, Y)))
 
 RECURSIVE SFCol(_, _, _, _, _)
+SFCell_(P, FMax, pi, fl, prev) ==
+    TLCEval([g \in 0..FMax |-> IF g < fl THEN Inf
+                               ELSE Min2(Inf, MinSet({ prev[pj][g - fl] + PermDist(pi, pj) : pj \in Perms(P) }))])
+SFStep_(X, Y, P, i, FMax, prev) ==
+    TLCEval([pi \in Perms(P) |-> SFCell_(P, FMax, pi, FlipsAt(X, Y, pi, i), prev)])
 SFCol(X, Y, P, i, FMax) ==   \* [pi |-> [g |-> min switch units with exactly g flip units on positions 1..i, ending in pi]]
-    IF i = 1 THEN TLCEval([pi \in Perms(P) |-> [g \in 0..FMax |-> IF FlipsAt(X, Y, pi, 1) = g THEN 0 ELSE Inf]])
-    ELSE LET prev == SFCol(X, Y, P, i - 1, FMax) IN
-         TLCEval([pi \in Perms(P) |->
-                    LET fl == FlipsAt(X, Y, pi, i) IN
-                    [g \in 0..FMax |-> IF g < fl THEN Inf
-                                       ELSE Min2(Inf, MinSet({ prev[pj][g - fl] + PermDist(pi, pj) : pj \in Perms(P) }))]])
+    IF i = 1 THEN TLCEval([pi \in Perms(P) |-> TLCEval([g \in 0..FMax |-> IF FlipsAt(X, Y, pi, 1) = g THEN 0 ELSE Inf])])
+    ELSE SFStep_(X, Y, P, i, FMax, SFCol(X, Y, P, i - 1, FMax))
 (* [g |-> min switch units among sequences with exactly g flip units]; an optimum never needs
    more flips than the Hamming distance (constant correspondence, no switch) *)
-MinSwGivenFlips(X, Y, P) ==
-    LET FMax == HammingUnits(X, Y, P)
-        last == SFCol(X, Y, P, BlockLen(X), FMax)
-    IN [g \in 0..FMax |-> MinSet({ last[pi][g] : pi \in Perms(P) })]
-PolySFMinDP(X, Y, P) == LET m == MinSwGivenFlips(X, Y, P) IN MinSet({ g + m[g] : g \in DOMAIN m })
-PolySFFlipsDP(X, Y, P) == LET m == MinSwGivenFlips(X, Y, P)
-                              best == MinSet({ g + m[g] : g \in DOMAIN m })
-                          IN { g \in DOMAIN m : g + m[g] = best }
+MinSwLast_(last, P, FMax) == TLCEval([g \in 0..FMax |-> MinSet({ last[pi][g] : pi \in Perms(P) })])
+MinSwGivenFlipsF_(X, Y, P, FMax) == MinSwLast_(SFCol(X, Y, P, BlockLen(X), FMax), P, FMax)
+MinSwGivenFlips(X, Y, P) == MinSwGivenFlipsF_(X, Y, P, HammingUnits(X, Y, P))
+SFMinOfM_(m) == MinSet({ g + m[g] : g \in DOMAIN m })
+SFFlipsOfM_(m, best) == { g \in DOMAIN m : g + m[g] = best }
+PolySFMinDP(X, Y, P) == SFMinOfM_(MinSwGivenFlips(X, Y, P))
+SFFlipsOfMM_(m) == SFFlipsOfM_(m, SFMinOfM_(m))
+PolySFFlipsDP(X, Y, P) == SFFlipsOfMM_(MinSwGivenFlips(X, Y, P))
 
 (* ------------------------------------------------------------------ the report for one block, in haplotype units *)
 (* sfF = the flip counts of the admissible switch/flip decompositions (switches = sfmin - flips):
    for P = 2 the run-length decomposition (unique), for P > 2 every minimum-cost decomposition. *)
+BlockReport2_(X, Y, sw, sf) ==
+    [n |-> BlockLen(X), ham |-> HammingUnits(X, Y, 2), dg |-> DiffGenotypes(X, Y),
+     sw |-> 2 * sw, sfmin |-> 2 * (sf.s + sf.f), sfF |-> { 2 * sf.f }]
+BlockReportP_(X, Y, P, m) ==
+    [n |-> BlockLen(X), ham |-> HammingUnits(X, Y, P), dg |-> DiffGenotypes(X, Y),
+     sw |-> PolySwitchesDP(X, Y, P), sfmin |-> SFMinOfM_(m), sfF |-> SFFlipsOfMM_(m)]
 BlockReport(X, Y, P) ==
-    IF P = 2 THEN LET sf == DiploidSF(X, Y) IN
-         [n |-> BlockLen(X), ham |-> HammingUnits(X, Y, 2), dg |-> DiffGenotypes(X, Y),
-          sw |-> 2 * DiploidSwitches(X, Y), sfmin |-> 2 * (sf.s + sf.f), sfF |-> { 2 * sf.f }]
-    ELSE [n |-> BlockLen(X), ham |-> HammingUnits(X, Y, P), dg |-> DiffGenotypes(X, Y),
-          sw |-> PolySwitchesDP(X, Y, P), sfmin |-> PolySFMinDP(X, Y, P), sfF |-> PolySFFlipsDP(X, Y, P)]
+    IF P = 2 THEN BlockReport2_(X, Y, DiploidSwitches(X, Y), DiploidSF(X, Y))
+    ELSE BlockReportP_(X, Y, P, MinSwGivenFlips(X, Y, P))
 ReportOf(F, blk, P) == BlockReport(Haps(F, 1, blk, P), Haps(F, 2, blk, P), P)
 
 RECURSIVE SumSets(_, _)
+SumSetsStep_(S, f, x) == { u + v : u \in f[x], v \in SumSets(S \ {x}, f) }
 SumSets(S, f) == IF S = {} THEN {0}     \* { sum of one element of f[x] per x in S }
-                 ELSE LET x == CHOOSE y \in S : TRUE
-                          rest == SumSets(S \ {x}, f)
-                      IN { u + v : u \in f[x], v \in rest }
+                 ELSE SumSetsStep_(S, f, CHOOSE y \in S : TRUE)
 
 (* totals over all intersection blocks (the "ALL INTERSECTION BLOCKS" columns) *)
-Totals(F, P) ==
-    LET B == Blocks(F)
-        rep == [blk \in B |-> ReportOf(F, blk, P)]
-    IN [nblk |-> Cardinality(B),
-        cov |-> SumOver(B, [blk \in B |-> rep[blk].n]),
-        pairs |-> SumOver(B, [blk \in B |-> rep[blk].n - 1]),
-        sw |-> SumOver(B, [blk \in B |-> rep[blk].sw]),
-        ham |-> SumOver(B, [blk \in B |-> rep[blk].ham]),
-        dg |-> SumOver(B, [blk \in B |-> rep[blk].dg]),
-        sfmin |-> SumOver(B, [blk \in B |-> rep[blk].sfmin]),
-        sfF |-> SumSets(B, [blk \in B |-> rep[blk].sfF])]
-Longest(F) == LET B == Blocks(F) IN { blk \in B : \A o \in B : Cardinality(o) <= Cardinality(blk) }
+Reports(F, B, P) == TLCEval([blk \in B |-> ReportOf(F, blk, P)])
+Totals_(B, rep) ==
+    [nblk |-> Cardinality(B),
+     cov |-> SumOver(B, [blk \in B |-> rep[blk].n]),
+     pairs |-> SumOver(B, [blk \in B |-> rep[blk].n - 1]),
+     sw |-> SumOver(B, [blk \in B |-> rep[blk].sw]),
+     ham |-> SumOver(B, [blk \in B |-> rep[blk].ham]),
+     dg |-> SumOver(B, [blk \in B |-> rep[blk].dg]),
+     sfmin |-> SumOver(B, [blk \in B |-> rep[blk].sfmin]),
+     sfF |-> SumSets(B, [blk \in B |-> rep[blk].sfF])]
+TotalsB_(F, B, P) == Totals_(B, Reports(F, B, P))
+Totals(F, P) == TotalsB_(F, Blocks(F), P)
+LongestOf(B) == { blk \in B : \A o \in B : Cardinality(o) <= Cardinality(blk) }
+Longest(F) == LongestOf(Blocks(F))
 EmptyReport == [n |-> 1, ham |-> 0, dg |-> 0, sw |-> 0, sfmin |-> 0, sfF |-> {0}]   \* no block: 0 pairs, zeros
 
 (* a reported row r = [nblk, cov, pairs, sw, sfs, sff, ham, dg] against the totals *)
@@ -180,27 +195,27 @@ LargestIs(lr, rep) == /\ lr.pairs = rep.n - 1 /\ lr.sw = rep.sw /\ lr.ham = rep.
 EqVec(X, Y) == [i \in 1..BlockLen(X) |-> IF X[1][i] = Y[1][i] THEN 1 ELSE 0]
 NeqVec(X, Y) == [i \in 1..BlockLen(X) |-> IF X[1][i] = Y[1][i] THEN 0 ELSE 1]
 (* position-wise agreement under the better of the two correspondences (either one in a tie) *)
-LongestAgreement(X, Y) ==
-    LET d == Ham(X[1], Y[1]) n == BlockLen(X) IN
+LongestAgreement_(X, Y, d, n) ==
     (IF d <= n - d THEN { EqVec(X, Y) } ELSE {}) \cup (IF n - d <= d THEN { NeqVec(X, Y) } ELSE {})
+LongestAgreement(X, Y) == LongestAgreement_(X, Y, Ham(X[1], Y[1]), BlockLen(X))
 
 (* BED: the adjacent variant pairs <<site, next site>> of all blocks at which the switch encodings differ *)
-SwitchPositions(F) ==
-    UNION { LET q == SortedSeqOf(blk)
-                d == DiploidDiff(Haps(F, 1, blk, 2), Haps(F, 2, blk, 2))
-            IN { <<q[i], q[i + 1]>> : i \in { j \in DOMAIN d : d[j] = 1 } } : blk \in Blocks(F) }
+SwitchPositionsOf_(q, d) == { <<q[i], q[i + 1]>> : i \in { j \in DOMAIN d : d[j] = 1 } }
+SwitchPositionsB_(F, B) ==
+    UNION { SwitchPositionsOf_(SortedSeqOf(blk), DiploidDiff(Haps(F, 1, blk, 2), Haps(F, 2, blk, 2))) : blk \in B }
+SwitchPositions(F) == SwitchPositionsB_(F, Blocks(F))
 
 (* ------------------------------------------------------------------ multiway comparison (diploid, >= 2 files) *)
 (* for every adjacent pair of a block: which files have a switch there; files are split into the side of
    file 1 and the others; the split is named by the set of files NOT on file 1's side *)
-SplitAt(F, blk, i) ==
-    LET se == [f \in DOMAIN F |-> SwitchEnc(Haps(F, f, blk, 2)[1])] IN
-    { f \in DOMAIN F : se[f][i] # se[1][i] }
-MultiSplits(F) == { <<blk, i>> : blk \in Blocks(F), i \in 1..NSites(F) }
-MultiPairs(F) == UNION { { <<blk, i>> : i \in 1..(Cardinality(blk) - 1) } : blk \in Blocks(F) }
-MultiHist(F) == LET MP == MultiPairs(F)
-                    S == { SplitAt(F, x[1], x[2]) : x \in MP }
-                IN [sp \in S |-> Cardinality({ x \in MP : SplitAt(F, x[1], x[2]) = sp })]
+SwitchEncs(F, blk) == TLCEval([f \in DOMAIN F |-> TLCEval(SwitchEnc(Haps(F, f, blk, 2)[1]))])
+Splits_(F, se, n) == [i \in 1..(n - 1) |-> { f \in DOMAIN F : se[f][i] # se[1][i] }]
+SplitsOf(F, blk) == Splits_(F, SwitchEncs(F, blk), Cardinality(blk))
+(* all <<block, index of adjacent pair, split>> *)
+MultiPairs_(F, B) == UNION { { <<blk, i, SplitsOf(F, blk)[i]>> : i \in 1..(Cardinality(blk) - 1) } : blk \in B }
+MultiPairs(F) == MultiPairs_(F, Blocks(F))
+MultiHist_(MP) == [sp \in { x[3] : x \in MP } |-> Cardinality({ x \in MP : x[3] = sp })]
+MultiHist(F) == MultiHist_(MultiPairs(F))
 MultiCompared(F) == Cardinality(MultiPairs(F))
 
 (* ------------------------------------------------------------------ relabelling haplotypes (the group action) *)
@@ -210,7 +225,7 @@ Relabel(A, ps, pi) ==   \* list the haplotypes of phase set ps of phasing A in t
 SameUpToLabels(A, A2, P) ==
     /\ Len(A) = Len(A2)
     /\ \A s \in DOMAIN A : A[s].b = A2[s].b /\ Len(A[s].a) = Len(A2[s].a)
-    /\ \A s \in DOMAIN A : A[s].b = 0 => SameBag(A[s].a, A2[s].a)
+    /\ \A s \in DOMAIN A : (A[s].b = 0 \/ A[s].a = << >>) => SameBag(A[s].a, A2[s].a)
     /\ \A ps \in PhaseSets(A) : \E pi \in Perms(P) :
-          \A s \in DOMAIN A : A[s].b = ps => A2[s].a = [k \in 1..P |-> A[s].a[pi[k]]]
+          \A s \in DOMAIN A : (A[s].b = ps /\ A[s].a # << >>) => A2[s].a = [k \in 1..P |-> A[s].a[pi[k]]]
 =============================================================================
